@@ -381,6 +381,12 @@ def cmp_table():
 		_CMP_TABLE = {tuple(x) for x in json.load(open(p))}
 	return _CMP_TABLE
 
+def _as_field(e):
+	"""a closure that captures `x.f` by disjoint capture sees it as an upvar named x__f: treat it as the field read it is"""
+	if e[0] == 'local' and e[2] and '__' in e[2]:
+		return ('field', None, e[2].rsplit('__', 1)[-1], None)
+	return e
+
 def cmp_census(F, prefix='lightning'):
 	if F.dir in _CMPS:
 		return _CMPS[F.dir]
@@ -392,13 +398,25 @@ def cmp_census(F, prefix='lightning'):
 			fu = F.func(n)
 		except AnchorMissing:
 			continue
+		flabel = r['file'].split('src/')[-1] if 'src/' in r['file'] else r['file']
 		for bi, si, dl, op, a, b in comparisons(fu):
-			ea, eb = strip(a), strip(b)
+			ea, eb = _as_field(strip(a)), _as_field(strip(b))
 			if ea[0] == 'field' and eb[0] == 'field' and not str(ea[2]).isdigit() and not str(eb[2]).isdigit():
 				fa, fb = ea[2], eb[2]
 				if fa > fb:
 					fa, fb, op = fb, fa, _FLIP[op]
-				rows.append({'file': r['file'], 'fn': n, 'line': fu.blocks[bi]['s'][si][0], 'key': (r['file'].split('src/')[-1] if 'src/' in r['file'] else r['file'], root_fn(n).rsplit('::', 1)[-1], fa, fb, op)})
+				rows.append({'file': r['file'], 'fn': n, 'line': fu.blocks[bi]['s'][si][0], 'key': (flabel, root_fn(n).rsplit('::', 1)[-1], fa, fb, op)})
+		# identity tests through PartialEq (ids, outpoints, keys, hashes): `a.x == b.y` on non-integer types is a call
+		cex = None
+		for b, ci in fu.calls():
+			nm = norm(ci.get('t') or ci.get('f') or '')
+			if not (nm.endswith('PartialEq::eq') or nm.endswith('PartialEq::ne')) or len(ci['args']) != 2:
+				continue
+			cex = cex or Expr(fu, max_depth=8)
+			ea, eb = _as_field(strip(cex.of_operand(ci['args'][0]))), _as_field(strip(cex.of_operand(ci['args'][1])))
+			if ea[0] == 'field' and eb[0] == 'field' and not str(ea[2]).isdigit() and not str(eb[2]).isdigit():
+				fa, fb = sorted((ea[2], eb[2]))
+				rows.append({'file': r['file'], 'fn': n, 'line': fu.line_of(b), 'key': (flabel, root_fn(n).rsplit('::', 1)[-1], fa, fb, 'Eq' if nm.endswith('::eq') else 'Ne')})
 	_CMPS[F.dir] = rows
 	return rows
 
@@ -430,14 +448,19 @@ def cmp_rule(F, rule_id, file_res, floor=1):
 	return out
 
 CMP_SCOPE = {
-	'C01': [r'ln/channel\.rs$', r'ln/chan_utils\.rs$', r'sign/tx_builder\.rs$'],
+	'C01': [r'ln/channel\.rs$', r'ln/chan_utils\.rs$', r'sign/tx_builder\.rs$', r'ln/funding\.rs$'],
 	'C02': [r'ln/channelmanager\.rs$'],
 	'C03': [r'ln/outbound_payment\.rs$'],
+	'C04': [r'ln/outbound_payment\.rs$', r'ln/inbound_payment\.rs$'],
 	'C06': [r'chain/package\.rs$'],
-	'C07': [r'chain/channelmonitor\.rs$'],
+	'C07': [r'chain/channelmonitor\.rs$', r'chain/package\.rs$'],
+	'C10': [r'ln/channelmanager\.rs$'],
+	'C11': [r'chain/channelmonitor\.rs$', r'chain/mod\.rs$'],
 	'C13': [r'util/ser\.rs$'],
+	'C15': [r'ln/peer_handler\.rs$'],
+	'C16': [r'routing/router\.rs$'],
 	'C17': [r'routing/gossip\.rs$'],
-	'C20': [r'lightning-block-sync/src/lib\.rs$'],
+	'C20': [r'lightning-block-sync/src/'],
 }
 
 def cmps_for_property(F, pid, rule_id):
